@@ -369,6 +369,24 @@ def sd1(ctx, R):
         b = match(("call", cs.qual, W("args"), W()), a)
         # ... and possibly bookkeeping handed down the recursion (a per-call memo, a visited set)
         return b is not None and b["args"] and b["args"][0] == ("attr", S, src) and (len(b["args"]) < 2 or b["args"][1] == raw)
+    # a "visited" set threaded through the recursion as ONE shared object: a scale is added on entry, an index that is already in the set
+    # raises, and nothing ever takes it out again.  That rejects every scale that is consumed by two other scales (or twice by one:
+    # Add(scale0, scale0)) - a valid dataflow graph - as circular.  A per-path copy (visited | {i}) or a removal on the way back is fine.
+    for p_ in [q_ for q_ in cs.params if q_ not in ("self",)]:
+        adds = [c for c in walk_body(cs.node) if isinstance(c, ast.Call) and isinstance(c.func, ast.Attribute) and c.func.attr == "add"
+                and isinstance(c.func.value, ast.Name) and c.func.value.id == p_]
+        removes = [c for c in walk_body(cs.node) if isinstance(c, ast.Call) and isinstance(c.func, ast.Attribute) and c.func.attr in ("remove", "discard", "pop", "clear")
+                   and isinstance(c.func.value, ast.Name) and c.func.value.id == p_]
+        member_raise = [r_ for r_ in walk_body(cs.node) if isinstance(r_, ast.If) and any(isinstance(x, ast.Raise) for x in r_.body)
+                        and isinstance(r_.test, ast.Compare) and len(r_.test.ops) == 1 and isinstance(r_.test.ops[0], ast.In)
+                        and isinstance(r_.test.comparators[0], ast.Name) and r_.test.comparators[0].id == p_]
+        rec_same = [c for c in walk_body(cs.node) if isinstance(c, ast.Call) and isinstance(c.func, ast.Attribute) and c.func.attr == cs.name
+                    and any(isinstance(a, ast.Name) and a.id == p_ for a in list(c.args) + [k.value for k in c.keywords])]
+        rebound = any(isinstance(n_, ast.Assign) and any(isinstance(t_, ast.Name) and t_.id == p_ for t_ in n_.targets) for n_ in walk_body(cs.node))
+        if adds and member_raise and len(rec_same) >= 2 and not removes and not rebound:
+            R.violation("scaling.MultiScaling._compute_scaled_data::shared visited set", cs.where(member_raise[0]), "`%s` is one set shared by the whole evaluation: every scale is added "
+                        "on entry, an index found in it raises, and nothing removes an index when its evaluation returns - so a scale that feeds two other scales "
+                        "(a diamond in the graph, or Add(scale, scale)) is rejected as circular instead of being evaluated" % p_)
     seen = {"base": False, "daqmx": False, "unary": False, "binary": False}
     for conds, leaf in lv:
         fc = flat_conds(conds)
